@@ -21,6 +21,13 @@ def run(tier, seed, t0):
     # anti-vacuity: each faulty loop must break the invariant it is named after
     mcf += [ex.submit(vlib.run_mc, "MC_FrameBuf", "MC_FrameBuf_%s.cfg" % c, workers=1, xmx="1g", expect_violation=inv)
             for c, inv in (("early", "Deterministic"), ("norecheck", "Prompt"), ("skip", "Stop"))]
+    # the hand-over of the socket (and of the frame buffer) from the handshake loop to the connection loop: frames
+    # right behind OpenOk are acted on in every chunking; the pinned upstream handshake (strict) and a connection
+    # loop that does not look at what is already buffered (nolook) each break it
+    mcf += [ex.submit(vlib.run_mc, "Handover", "Handover.cfg", workers=2, xmx="1g", tag="Handover-c06"),
+            ex.submit(vlib.run_mc, "Handover", "Handover_strict.cfg", workers=1, xmx="1g",
+                      expect_violation="NoSpuriousFailure"),
+            ex.submit(vlib.run_mc, "Handover", "Handover_nolook.cfg", workers=1, xmx="1g", expect_violation="AllActed")]
     if thorough:
         mcf.append(ex.submit(vlib.run_mc, "MC_FrameBuf", "MC_FrameBuf_big.cfg", workers=6, xmx="4g", timeout=1500))
     try:
